@@ -34,7 +34,8 @@ REGISTRY = {
     'merge': {'*': [dict(kind='egg', file='replays/merge/merge_and_subsume.egg'),
                     dict(kind='egg', file='replays/merge/parallel_in_batch_merge.egg', args=('-j', '4'), env={'EGGLOG_PARALLEL_TABLE_OP_CUTOFF': '0'}),
                     dict(kind='egg', file='replays/merge/extract_skips_subsumed.egg', forbid_out='(Mul (Var "a") (Num 2))', require_out='(Shl (Var "a") (Num 1))')]},
-    'semi': {'*': [dict(kind='egg', file='replays/semi/seminaive.egg'), dict(kind='egg', file='replays/semi/seminaive.egg', args=('--naive',))]},
+    'semi': {'*': [dict(kind='egg', file='replays/semi/seminaive.egg'), dict(kind='egg', file='replays/semi/seminaive.egg', args=('--naive',)),
+                   dict(kind='egg', file='replays/semi/nullary_delta.egg'), dict(kind='egg', file='replays/semi/nullary_delta.egg', args=('--naive',))]},
     'uf': {'*': [dict(kind='harness', name='uf_partition')]},
     'insert': {'*': [dict(kind='egg', file='replays/merge/merge_and_subsume.egg'),
                      dict(kind='egg', file='replays/merge/parallel_in_batch_merge.egg', args=('-j', '4'), env={'EGGLOG_PARALLEL_TABLE_OP_CUTOFF': '0'}),
@@ -44,7 +45,7 @@ REGISTRY = {
     },
     # pseudo-unit: the Rust API write path (EGraph::update -> bridge flush_updates), C05 thorough tier only (F4)
     'apiupdate': {'*': [dict(kind='harness', name='update_nomerge')]},
-    'driver': {'flush_updates_inner': [dict(kind='harness', name='update_nomerge')], '*': [dict(kind='egg', file='replays/driver/nomerge_conflict_by_union.egg'), dict(kind='egg', file='replays/driver/panic_before_rebuild.egg'), dict(kind='egg', file='replays/semi/seminaive.egg'),
+    'driver': {'flush_updates_inner': [dict(kind='harness', name='update_nomerge')], '*': [dict(kind='egg', file='replays/driver/nomerge_conflict_by_union.egg'), dict(kind='egg', file='replays/driver/panic_during_rebuild_fixpoint.egg'), dict(kind='egg', file='replays/driver/panic_before_rebuild.egg'), dict(kind='egg', file='replays/semi/seminaive.egg'),
                      dict(kind='egg', file='replays/driver/parallel_rebuild_every_row.egg', args=('-j', '4'), env={'EGGLOG_PARALLEL_REBUILD_CUTOFF': '1000'}),
                      dict(kind='egg', file='replays/driver/parallel_rebuild_every_row.egg')]},
 }
